@@ -119,7 +119,7 @@ def gen_sweep_reads(seed, spb, lbits, maxpoints=40):
     body = ['thread 0 ' + rd, 'thread 1 ' + wr]
     return ['\n'.join(hdr + body + ['sched ' + ' '.join(map(str, [0] * j + [-2, -1]))]) + '\n' for j in range(1, maxpoints)]
 
-def gen_sweep(seed, spb, lbits, maxpoints=90, dup_only=False):
+def gen_sweep(seed, spb, lbits, maxpoints=90, dup_only=False, two_groups=None, force_resize=False, diff_stripes=False):
     """Systematic single-preemption sweep over a small program built around bucket displacement: both
     candidate buckets of a new key are full (all keys share one hash, or two hashes with equal buckets),
     one thread inserts it (BFS + path execution), the others erase / update / re-insert residents or
@@ -128,8 +128,14 @@ def gen_sweep(seed, spb, lbits, maxpoints=90, dup_only=False):
     r = random.Random(seed)
     nres = 2 * spb
     h = r.getrandbits(64)
+    if diff_stripes:
+        # the two candidate buckets of the shared hash fall under different lock stripes at every table size: the
+        # low bits of (tag+1)*0xc6a4a7935bd1e995 are not all zero
+        kmax = 1 << lbits
+        tags = [t for t in range(256) if ((t + 1) * 0xc6a4a7935bd1e995) & (kmax - 1)]
+        h = gen.hash_with_tag(r, r.choice(tags), r.getrandbits(12), 12)
     keys = {k: h for k in range(1, nres + 4)}
-    if r.random() < 0.4:
+    if (two_groups if two_groups is not None else r.random() < 0.4):
         # second group: same tag and low bits, differing higher bits
         h2 = gen.hash_with_tag(r, gen.partial_key(h), h & 7, 3)
         for k in range(nres // 2 + 1, nres + 4):
@@ -154,6 +160,9 @@ def gen_sweep(seed, spb, lbits, maxpoints=90, dup_only=False):
         o1 = r.choice(['erase %d ; insert %d 7' % (victim, newk), 'erase %d ; upsert %d ctx:1:1 1 7' % (victim, newk),
                        'erase %d ; rehash %d ; insert %d 7' % (victim, r.choice([4, 5]), newk),
                        'erase %d ; reserve %d ; upsert %d ctx:1:1 1 7' % (victim, r.choice([40, 70]), newk)])
+        if force_resize:
+            o1 = r.choice(['erase %d ; rehash %d ; insert %d 7' % (victim, r.choice([4, 5]), newk),
+                           'erase %d ; reserve %d ; upsert %d ctx:1:1 1 7' % (victim, r.choice([40, 70]), newk)])
         t0 = r.choice(['insert %d 5' % newk, 'upsert %d ctx:1:1 1 5' % newk, 'uprase %d ctx:1:1 1 5' % newk, 'ioa %d 5' % newk])
     others.append(o1)
     if r.random() < 0.5 and not dup_only:
